@@ -133,7 +133,13 @@ def _observe_ids(case):
         os.close(handle)
         try:
             serialiser.AntismashResults("in.gbk", out, [{} for _ in out], "verif").write_to_file(path)
-            return serialiser.AntismashResults.from_file(path).records
+            # read the way a run with --reuse-results reads them (main.read_data: from_file, annotations stripped)
+            from antismash import main as core  # pylint: disable=import-outside-toplevel
+            state["config"].update_config({"reuse_results": path})
+            try:
+                return core.read_data(None, state["options"]).records
+            finally:
+                state["config"].update_config({"reuse_results": ""})
         finally:
             os.unlink(path)
     def through_genbank_comments():
